@@ -45,17 +45,22 @@ extern "C" void h_kd_portable_id(void) {
   char buf[1]; buf[0] = (char)(7 + (nondet_u8() % 200));   // invalid compression level: rejected after the creation loop
   DecoderBuffer db; db.Init(buf, 1, DRACO_BITSTREAM_VERSION(2, 3));
   const bool ok = dec.DecodePortableAttributes(&db);
-  verif_assert(!ok, "harness cut: an invalid compression level is rejected");
-  verif_assert(dec.quantized_portable_attributes_.size() == NATT, "one portable attribute per float attribute");
+  verif_assert(!ok, "an invalid compression level is rejected");
+  // The cut relies on the level being validated AFTER the portable attributes were created.  If a future version
+  // validates it earlier, nothing was created and this obligation has nothing to decide: the end of the harness is then
+  // not reached and the run is reported as broken (exit 2), not as a violation.
+  const bool created = dec.quantized_portable_attributes_.size() == NATT;
   uint32_t i = nondet_u32(); verif_assume(i < NATT);
-  const PointAttribute *p = port_slots[i].get();
+  const PointAttribute *p = created ? port_slots[i].get() : nullptr;
+  if (created) {
   verif_assert(p != nullptr, "portable attribute created");
   if (p != nullptr) {
     verif_observe(p->unique_id());
     verif_assert(p->attribute_type() == (GeometryAttribute::Type)ty[i] && p->num_components() == nc[i] && p->data_type() == DT_UINT32, "the portable attribute has the type and component count of the attribute it stands for");
     verif_assert(p->unique_id() == uid[i], "the portable attribute carries the unique id of the attribute it stands for");
   }
+  }
   for (int k = 0; k < NATT; ++k) { port_slots[k].reset(); out_slots[k].release(); out[k].attribute_buffer_.release(); }
   verif_release(pc.attributes_); verif_release(dec.point_attribute_ids_); verif_release(dec.quantized_portable_attributes_);
-  verif_reach();
+  if (created) verif_reach();
 }
